@@ -385,4 +385,535 @@ theorem applyIsotopeMods_mass (μ : Elem → Rat) (K : Elem → Prop) (mods : Li
   rw [hp]
   rfl
 
+/-! ### modifications on the composition path: pure mass shifts are popped, the others add their composition -/
+
+/-- what the resolver says about every modification: a pure mass shift `dl m = some v`, or a composition `cp m` -/
+structure ModsResolve (env : Pept.Env) (K : Elem → Prop) (dl : Mod → Option Rat) (cp : Mod → Comp) : Prop where
+  delta : ∀ m : Mod, (env.res m.val).delta = .ok (dl m)
+  comp : ∀ m : Mod, dl m = none → (env.res m.val).comp = .ok (cp m) ∧ AK K (cp m)
+
+/-- the weight of one modification on the composition path -/
+def modWeight (μ : Elem → Rat) (dl : Mod → Option Rat) (cp : Mod → Comp) (m : Mod) : Rat :=
+  match dl m with
+  | some v => v * (m.mult : Rat)
+  | none => (m.mult : Rat) * chemMassL μ (cp m)
+
+def dsum (dl : Mod → Option Rat) (l : List Mod) : Rat :=
+  (l.map fun m => match dl m with | some v => v * (m.mult : Rat) | none => 0).sum
+
+def keep (dl : Mod → Option Rat) (l : List Mod) : List Mod := l.filter fun m => (dl m).isNone
+
+def csum (μ : Elem → Rat) (cp : Mod → Comp) (l : List Mod) : Rat :=
+  (l.map fun m => (m.mult : Rat) * chemMassL μ (cp m)).sum
+
+theorem popList_ok (env : Pept.Env) (K) (dl cp) (h : ModsResolve env K dl cp) (l : List Mod) :
+    popList env l = .ok (dsum dl l, keep dl l) := by
+  unfold popList
+  induction l with
+  | nil => rfl
+  | cons m l ih =>
+    rw [List.foldrM_cons, ih]
+    simp only [bind, Except.bind, h.delta m]
+    cases hd : dl m with
+    | some v =>
+      simp only [pure, Except.pure, dsum, keep, List.map_cons, List.sum_cons, List.filter_cons, hd, Option.isNone_some,
+        Bool.false_eq_true, if_false]
+      congr 2
+      ring
+    | none =>
+      simp only [pure, Except.pure, dsum, keep, List.map_cons, List.sum_cons, List.filter_cons, hd, Option.isNone_none,
+        if_true]
+      congr 2
+      ring
+
+theorem dsum_csum (μ : Elem → Rat) (dl cp) (l : List Mod) :
+    dsum dl l + csum μ cp (keep dl l) = modsSum (modWeight μ dl cp) l := by
+  induction l with
+  | nil => simp [dsum, csum, keep, modsSum]
+  | cons m l ih =>
+    unfold dsum csum keep modsSum at ih ⊢
+    cases hd : dl m with
+    | some v =>
+      simp only [List.map_cons, List.sum_cons, List.filter_cons, hd, Option.isNone_some, Bool.false_eq_true, if_false,
+        modWeight]
+      linarith
+    | none =>
+      simp only [List.map_cons, List.sum_cons, List.filter_cons, hd, Option.isNone_none, if_true, modWeight]
+      linarith
+
+theorem addMods_ok (env : Pept.Env) (K) (dl cp) (h : ModsResolve env K dl cp) (μ : Elem → Rat) (l : List Mod)
+    (hl : ∀ m ∈ l, dl m = none) (acc : Comp) (hacc : AK K acc) :
+    ∃ acc', addMods env acc l = .ok acc' ∧ chemMassL μ acc' = chemMassL μ acc + csum μ cp l ∧ AK K acc' := by
+  unfold addMods
+  induction l generalizing acc with
+  | nil => exact ⟨acc, rfl, by simp [csum], hacc⟩
+  | cons m l ih =>
+    obtain ⟨hc, hk⟩ := h.comp m (hl m List.mem_cons_self)
+    have hstep : modComp env m = .ok (scale (m.mult : Rat) (cp m)) := by
+      unfold modComp; rw [hc]; rfl
+    obtain ⟨acc', h1, h2, h3⟩ := ih (fun x hx => hl x (List.mem_cons_of_mem _ hx))
+      (addAll acc (scale (m.mult : Rat) (cp m))) (AK_addAll K _ _ hacc (AK_scale K _ _ hk))
+    refine ⟨acc', ?_, ?_, h3⟩
+    · rw [List.foldlM_cons, hstep]
+      exact h1
+    · rw [h2, chemMassL_addAll, chemMassL_scale]
+      simp only [csum, List.map_cons, List.sum_cons]
+      ring
+
+theorem keep_all_none (dl : Mod → Option Rat) (l : List Mod) : ∀ m ∈ keep dl l, dl m = none := by
+  intro m hm
+  have := (List.mem_filter.1 hm).2
+  simpa using this
+
+theorem mapM_ok' {ε α β} (f : α → Except ε β) (g : α → β) (l : List α) (h : ∀ x ∈ l, f x = .ok (g x)) :
+    l.mapM f = .ok (l.map g) := by
+  induction l with
+  | nil => rfl
+  | cons a l ih =>
+    rw [List.mapM_cons, h a List.mem_cons_self, ih (fun x hx => h x (List.mem_cons_of_mem _ hx))]
+    rfl
+
+def optD (dl : Mod → Option Rat) : Option (List Mod) → Rat
+  | none => 0
+  | some l => dsum dl l
+
+def intD (dl : Mod → Option Rat) : Option (List (Int × List Mod)) → Rat
+  | none => 0
+  | some d => (d.map fun p => dsum dl p.2).sum
+
+def optC (μ : Elem → Rat) (cp : Mod → Comp) : Option (List Mod) → Rat
+  | none => 0
+  | some l => csum μ cp l
+
+def intC (μ : Elem → Rat) (cp : Mod → Comp) : Option (List (Int × List Mod)) → Rat
+  | none => 0
+  | some d => (d.map fun p => csum μ cp p.2).sum
+
+def keepInt (dl : Mod → Option Rat) (d : List (Int × List Mod)) : List (Int × List Mod) :=
+  d.map fun p => (p.1, keep dl p.2)
+
+theorem popOpt_ok (env : Pept.Env) (K) (dl cp) (h : ModsResolve env K dl cp) (o : Option (List Mod)) :
+    popOpt env o = .ok (optD dl o, o.map (keep dl)) := by
+  cases o with
+  | none => rfl
+  | some l =>
+    simp only [popOpt]
+    rw [popList_ok env K dl cp h l]
+    rfl
+
+theorem foldr_fst_sum {β} (rs : List (Rat × β)) : rs.foldr (fun r acc => r.1 + acc) 0 = (rs.map (·.1)).sum := by
+  induction rs with
+  | nil => rfl
+  | cons r rs ih => simp [List.foldr_cons, ih]
+
+theorem popInternal_ok (env : Pept.Env) (K) (dl cp) (h : ModsResolve env K dl cp)
+    (o : Option (List (Int × List Mod))) :
+    popInternal env o = .ok (intD dl o, o.map (keepInt dl)) := by
+  cases o with
+  | none => rfl
+  | some d =>
+    simp only [popInternal]
+    have hm : d.mapM (popEntry env) = .ok (d.map fun p => (dsum dl p.2, (p.1, keep dl p.2))) := by
+      apply mapM_ok'
+      intro p _
+      unfold popEntry
+      rw [popList_ok env K dl cp h p.2]
+      rfl
+    rw [hm]
+    simp only [bind, Except.bind, pure, Except.pure, foldr_fst_sum, List.map_map, intD, Option.map_some, keepInt]
+    rfl
+
+theorem addOptMods_ok (env : Pept.Env) (K) (dl cp) (h : ModsResolve env K dl cp) (μ : Elem → Rat)
+    (o : Option (List Mod)) (acc : Comp) (hacc : AK K acc) :
+    ∃ acc', addOptMods env acc (o.map (keep dl)) = .ok acc' ∧
+      chemMassL μ acc' = chemMassL μ acc + optC μ cp (o.map (keep dl)) ∧ AK K acc' := by
+  cases o with
+  | none => exact ⟨acc, rfl, by simp [optC], hacc⟩
+  | some l => exact addMods_ok env K dl cp h μ (keep dl l) (keep_all_none dl l) acc hacc
+
+theorem internalComp_ok (env : Pept.Env) (K) (dl cp) (h : ModsResolve env K dl cp) (μ : Elem → Rat)
+    (o : Option (List (Int × List Mod))) (acc : Comp) (hacc : AK K acc) :
+    ∃ acc', internalComp env acc (o.map (keepInt dl)) = .ok acc' ∧
+      chemMassL μ acc' = chemMassL μ acc + intC μ cp (o.map (keepInt dl)) ∧ AK K acc' := by
+  cases o with
+  | none => exact ⟨acc, rfl, by simp [intC], hacc⟩
+  | some d =>
+    simp only [Option.map_some, internalComp, intC]
+    induction d generalizing acc with
+    | nil => exact ⟨acc, rfl, by simp [keepInt], hacc⟩
+    | cons p d ih =>
+      obtain ⟨a1, h1, h2, h3⟩ := addMods_ok env K dl cp h μ (keep dl p.2) (keep_all_none dl p.2) acc hacc
+      obtain ⟨a2, g1, g2, g3⟩ := ih a1 h3
+      refine ⟨a2, ?_, ?_, g3⟩
+      · simp only [keepInt, List.map_cons, List.foldlM_cons, h1]
+        exact g1
+      · rw [g2, h2]
+        simp only [keepInt, List.map_cons, List.sum_cons]
+        ring
+
+/-! ### the composition path on a plain labelled annotation -/
+
+/-- a working copy of `fragment` with isotope labels `iso`: static rules written out, nothing labile / unknown /
+interval / adduct -/
+structure PlainL (b : Annotation) (iso : List Mod) : Prop where
+  static : b.static = none
+  isotope : b.isotope = some iso
+  labile : b.labile = none
+  unknown : b.unknown = none
+  intervals : b.intervals = none
+  adducts : b.adducts = none
+
+structure ResiduesResolve (K : Elem → Prop) (aa : Char → Comp) (seq : List Char) : Prop where
+  residues : ∀ c ∈ seq, lookup c.toNat Gen.aaComp = some (aa c) ∧ AK K (aa c)
+  notB : seq.contains 'B' = false
+  notZ : seq.contains 'Z' = false
+
+theorem residueComp_ok (K : Elem → Prop) (aa : Char → Comp) (seq : List Char)
+    (h : ∀ c ∈ seq, lookup c.toNat Gen.aaComp = some (aa c) ∧ AK K (aa c)) :
+    ∃ rc, residueComp seq = .ok rc ∧ (∀ ν : Elem → Rat, chemMassL ν rc = (seq.map fun c => chemMassL ν (aa c)).sum) ∧
+      AK K rc ∧ KN rc := by
+  unfold residueComp
+  have key : ∀ (l : List Char) (acc : Comp), (∀ c ∈ l, lookup c.toNat Gen.aaComp = some (aa c) ∧ AK K (aa c)) →
+      AK K acc → KN acc →
+      ∃ rc, l.foldlM (fun acc c => match lookup c.toNat Gen.aaComp with
+          | none => (Except.error Pept.Err.unknownAA : Except Pept.Err Comp)
+          | some k => pure (addAll acc k)) acc = .ok rc ∧
+        (∀ ν : Elem → Rat, chemMassL ν rc = chemMassL ν acc + (l.map fun c => chemMassL ν (aa c)).sum) ∧
+        AK K rc ∧ KN rc := by
+    intro l
+    induction l with
+    | nil => intro acc _ ha hk; exact ⟨acc, rfl, by intro ν; simp, ha, hk⟩
+    | cons c l ih =>
+      intro acc hl ha hk
+      obtain ⟨hc, hcK⟩ := hl c List.mem_cons_self
+      obtain ⟨rc, h1, h2, h3, h4⟩ := ih (addAll acc (aa c)) (fun x hx => hl x (List.mem_cons_of_mem _ hx))
+        (AK_addAll K _ _ ha hcK) (KN_addAll _ _ hk)
+      refine ⟨rc, ?_, ?_, h3, h4⟩
+      · rw [List.foldlM_cons, hc]
+        exact h1
+      · intro ν
+        rw [h2 ν, chemMassL_addAll]
+        simp only [List.map_cons, List.sum_cons]
+        ring
+  obtain ⟨rc, h1, h2, h3, h4⟩ := key seq [] h (AK_nil K) KN_nil
+  exact ⟨rc, h1, fun ν => by rw [h2 ν, chemMassL_nil]; ring, h3, h4⟩
+
+/-- the annotation after `_pop_delta_mass_mods` -/
+def popped (dl : Mod → Option Rat) (a : Annotation) : Annotation :=
+  { a with labile := none, unknown := none, nterm := a.nterm.map (keep dl), cterm := a.cterm.map (keep dl),
+           intervals := none, internal := a.internal.map (keepInt dl) }
+
+theorem popDelta_ok (env : Pept.Env) (K) (dl cp) (h : ModsResolve env K dl cp) (a : Annotation)
+    (h1 : a.labile = none) (h2 : a.unknown = none) (h3 : a.intervals = none) :
+    popDeltaMassMods env a =
+      .ok (0 + 0 + optD dl a.nterm + optD dl a.cterm + 0 + intD dl a.internal, popped dl a) := by
+  unfold popDeltaMassMods
+  rw [h1, h2, h3, popOpt_ok env K dl cp h a.nterm, popOpt_ok env K dl cp h a.cterm,
+    popInternal_ok env K dl cp h a.internal]
+  rfl
+
+theorem modsComp_ok (env : Pept.Env) (K) (dl cp) (h : ModsResolve env K dl cp) (μ : Elem → Rat) (a : Annotation)
+    (hs : a.static = none) (t : Chem.Key) :
+    ∃ mc, modsComp env (popped dl a) t = .ok mc ∧
+      chemMassL μ mc = optC μ cp (a.nterm.map (keep dl)) + optC μ cp (a.cterm.map (keep dl)) +
+        intC μ cp (a.internal.map (keepInt dl)) ∧ AK K mc := by
+  obtain ⟨m1, a1, b1, c1⟩ := addOptMods_ok env K dl cp h μ a.nterm [] (AK_nil K)
+  obtain ⟨m2, a2, b2, c2⟩ := addOptMods_ok env K dl cp h μ a.cterm m1 c1
+  obtain ⟨m3, a3, b3, c3⟩ := internalComp_ok env K dl cp h μ a.internal m2 c2
+  refine ⟨m3, ?_, ?_, c3⟩
+  · unfold modsComp
+    have hl : labileComp env [] (popped dl a) t = .ok [] := by
+      unfold labileComp
+      split <;> rfl
+    show (do
+      let mc ← addOptMods env [] none
+      let mc ← intervalsComp env mc none
+      let mc ← labileComp env mc (popped dl a) t
+      let mc ← addOptMods env mc (a.nterm.map (keep dl))
+      let mc ← addOptMods env mc (a.cterm.map (keep dl))
+      let mc ← internalComp env mc (a.internal.map (keepInt dl))
+      addStatic env mc a.seq a.static) = _
+    have e1 : addOptMods env ([] : Comp) none = Except.ok [] := rfl
+    have e2 : intervalsComp env ([] : Comp) none = Except.ok [] := rfl
+    simp only [e1, e2, hl, a1, a2, a3, hs, bind, Except.bind]
+    rfl
+  · rw [b3, b2, b1, chemMassL_nil]; ring
+
+/-- the private copy of `comp_mass` after the argument overrides -/
+def relabelled (b : Annotation) (ch : Int) (iso : List Mod) : Annotation :=
+  { b with charge := some ch, isotope := some iso }
+
+theorem dropLabile_of_none (a : Annotation) (t : Chem.Key) (h : a.labile = none) : dropLabile a t = a := by
+  unfold dropLabile
+  split
+  · rfl
+  · cases a; simp_all
+
+theorem compMass_labelled (menv : Pept.Env) (K : Elem → Prop) (dl : Mod → Option Rat) (cp : Mod → Comp)
+    (aa : Char → Comp) (μ : Elem → Rat) (b : Annotation) (iso : List Mod) (map : List (Chem.Key × Chem.Key))
+    (hpl : PlainL b iso) (hparse : parseIsotopeMods iso = .ok map) (hmapK : ∀ p ∈ map, K p.2)
+    (hres : ResiduesResolve K aa b.seq) (hmods : ModsResolve menv K dl cp)
+    (t : Chem.Key) (ch isoN : Int) (adj car : Comp)
+    (hadj : lookup t neutralAdj = some adj) (hadjK : AK K adj)
+    (hcar : defaultCarrier ch t = .ok car) (hcarK : AK K car)
+    (hcc : (t = ionP || t = ionN || (lookup t Gen.baseAdducts).isSome) = true) (hn : K kNn) :
+    ∃ c, compMass menv b t (some ch) isoN none (some iso) false =
+        .ok (c, 0 + 0 + optD dl b.nterm + optD dl b.cterm + 0 + intD dl b.internal) ∧
+      chemMassL μ c = (b.seq.map fun x => chemMassL (labelMu map μ) (aa x)).sum + chemMassL (labelMu map μ) adj +
+        chemMassL (labelMu map μ) car +
+        (optC μ cp (b.nterm.map (keep dl)) + optC μ cp (b.cterm.map (keep dl)) +
+          intC μ cp (b.internal.map (keepInt dl))) + μ kNn * (isoN : Rat) ∧
+      AK K c := by
+  obtain ⟨rc, r1, r2, r3, r4⟩ := residueComp_ok K aa b.seq hres.residues
+  obtain ⟨mc, m1, m2, m3⟩ := modsComp_ok menv K dl cp hmods μ (relabelled b ch iso) hpl.static t
+  have hseqKN : KN (addAll (addAll rc adj) car) := KN_addAll _ _ (KN_addAll _ _ r4)
+  have hseqAK : AK K (addAll (addAll rc adj) car) := AK_addAll K _ _ (AK_addAll K _ _ r3 hadjK) hcarK
+  obtain ⟨sc, s1, s2, s3⟩ := applyIsotopeMods_mass μ K iso map hparse hmapK _ hseqKN hseqAK
+  refine ⟨dropZeros (addAll (addAll [] sc) (addKey mc kNn (isoN : Rat))), ?_, ?_, ?_⟩
+  · unfold compMass
+    have e0 : overrideArgs b (some ch) none (some iso) = relabelled b ch iso := rfl
+    have e1 : condenseStatic menv (relabelled b ch iso) = .ok (relabelled b ch iso) := by
+      unfold condenseStatic
+      have : (relabelled b ch iso).static = none := hpl.static
+      rw [this]; rfl
+    have e2 : dropLabile (relabelled b ch iso) t = relabelled b ch iso := dropLabile_of_none _ _ hpl.labile
+    have e3 := popDelta_ok menv K dl cp hmods (relabelled b ch iso) hpl.labile hpl.unknown hpl.intervals
+    have e4 : clearEmptyAdducts (popped dl (relabelled b ch iso)) = popped dl (relabelled b ch iso) := by
+      unfold clearEmptyAdducts
+      have : (popped dl (relabelled b ch iso)).adducts = none := hpl.adducts
+      rw [this]
+    have e5 : sequenceComp menv (popped dl (relabelled b ch iso)) t isoN false =
+        .ok (dropZeros (addAll (addAll [] sc) (addKey mc kNn (isoN : Rat)))) := by
+      unfold sequenceComp
+      have c1 : carrierCheck (popped dl (relabelled b ch iso)) t = .ok () := by
+        unfold carrierCheck
+        have : (popped dl (relabelled b ch iso)).adducts = none := hpl.adducts
+        rw [this]
+        simp only [hcc, if_true]
+        rfl
+      have c2 : (popped dl (relabelled b ch iso)).seq = b.seq := rfl
+      have c3 : seqBaseComp (popped dl (relabelled b ch iso)) t = .ok (addAll (addAll rc adj) car) := by
+        unfold seqBaseComp
+        rw [c2, r1]
+        simp only [bind, Except.bind, hadj]
+        have : carrierComp (popped dl (relabelled b ch iso)) t = .ok car := by
+          unfold carrierComp
+          have ha : (popped dl (relabelled b ch iso)).adducts = none := hpl.adducts
+          have hc : (popped dl (relabelled b ch iso)).charge = some ch := rfl
+          rw [ha, hc]
+          exact hcar
+        rw [this]
+        rfl
+      have c4 : applyLabels (popped dl (relabelled b ch iso)) false (addAll (addAll rc adj) car)
+          (addKey mc kNn (isoN : Rat)) = .ok (sc, addKey mc kNn (isoN : Rat)) := by
+        unfold applyLabels
+        have : (popped dl (relabelled b ch iso)).isotope = some iso := rfl
+        rw [this]
+        simp only [bind, Except.bind, s1]
+        rfl
+      rw [c1, c2]
+      simp only [hres.notB, hres.notZ, bind, Except.bind, Bool.false_eq_true, if_false, c3, m1, c4]
+      rfl
+    rw [e0]
+    simp only [e1, bind, Except.bind, e2, e3, e4, e5]
+    rfl
+  · have m2' : chemMassL μ mc = optC μ cp (b.nterm.map (keep dl)) + optC μ cp (b.cterm.map (keep dl)) +
+        intC μ cp (b.internal.map (keepInt dl)) := m2
+    rw [chemMassL_dropZeros, chemMassL_addAll, chemMassL_addAll, chemMassL_nil, chemMassL_addKey, s2, m2',
+      chemMassL_addAll, chemMassL_addAll, r2]
+    ring
+  · exact AK_filter K _ _ (AK_addAll K _ _ (AK_addAll K _ _ (AK_nil K) s3) (AK_addKey K _ _ _ m3 hn))
+
+theorem optD_optC (μ : Elem → Rat) (dl cp) (o : Option (List Mod)) :
+    optD dl o + optC μ cp (o.map (keep dl)) = optSum (modWeight μ dl cp) o := by
+  cases o with
+  | none => simp [optD, optC, optSum]
+  | some l => exact dsum_csum μ dl cp l
+
+theorem intD_intC (μ : Elem → Rat) (dl cp) (o : Option (List (Int × List Mod))) :
+    intD dl o + intC μ cp (o.map (keepInt dl)) = intSum (modWeight μ dl cp) o := by
+  cases o with
+  | none => simp [intD, intC, intSum]
+  | some d =>
+    simp only [intD, intC, intSum, Option.map_some, keepInt, List.map_map]
+    induction d with
+    | nil => simp
+    | cons p d ih =>
+      simp only [List.map_cons, List.sum_cons, Function.comp] at ih ⊢
+      have := dsum_csum μ dl cp p.2
+      linarith
+
+/-- the mass function of `chem_mass` and its domain -/
+def muOf (mono : Bool) : Elem → Rat := fun e => (elemMass mono e).getD 0
+def knownOf (mono : Bool) : Elem → Prop := fun e => (elemMass mono e).isSome = true
+
+/-- **the label path of `mass` on a plain labelled annotation**: labelled residues + placed modifications + labelled
+(ion-type adjustment + charge carriers) + isotope·neutron + loss -/
+theorem massOf_labelled (menv : Pept.Env) (mono : Bool) (dl : Mod → Option Rat) (cp : Mod → Comp)
+    (aa : Char → Comp) (b : Annotation) (i0 : Mod) (is : List Mod) (map : List (Chem.Key × Chem.Key))
+    (hpl : PlainL b (i0 :: is)) (hparse : parseIsotopeMods (i0 :: is) = .ok map)
+    (hmapK : ∀ p ∈ map, knownOf mono p.2)
+    (hres : ResiduesResolve (knownOf mono) aa b.seq) (hmods : ModsResolve menv (knownOf mono) dl cp)
+    (t : Chem.Key) (ch isoN : Int) (loss : Rat) (adj car : Comp)
+    (hadj : lookup t neutralAdj = some adj) (hadjK : AK (knownOf mono) adj)
+    (hcar : defaultCarrier ch t = .ok car) (hcarK : AK (knownOf mono) car)
+    (hcc : (t = ionP || t = ionN || (lookup t Gen.baseAdducts).isSome) = true) (hn : knownOf mono kNn) :
+    massOf CompCalc.compMass menv mono b t ch isoN loss =
+      .ok (plainWeight (fun x => chemMassL (labelMu map (muOf mono)) (aa x)) (modWeight (muOf mono) dl cp) b +
+        (chemMassL (labelMu map (muOf mono)) adj + chemMassL (labelMu map (muOf mono)) car) +
+        (isoN : Rat) * muOf mono kNn + loss) := by
+  obtain ⟨c, hc, hm, hk⟩ := compMass_labelled menv (knownOf mono) dl cp aa (muOf mono) b (i0 :: is) map hpl hparse
+    hmapK hres hmods t ch isoN adj car hadj hadjK hcar hcarK hcc hn
+  have hall : c.all (fun p => (elemMass mono p.1).isSome) = true := by
+    rw [List.all_eq_true]
+    intro p hp
+    exact hk p hp
+  have hchem := chemMass_ok mono c hall
+  unfold massOf massWith resolveArgs
+  simp only [hpl.adducts, effLabels, effCharge, hpl.isotope, hres.notB, hres.notZ, bind, Except.bind, pure, Except.pure,
+    Bool.false_eq_true, if_false, hc, hchem, Chem.roundOpt]
+  congr 1
+  have h1 := optD_optC (muOf mono) dl cp b.nterm
+  have h2 := optD_optC (muOf mono) dl cp b.cterm
+  have h3 := intD_intC (muOf mono) dl cp b.internal
+  have hm' : chemMassL (muOf mono) c = _ := hm
+  show chemMassL (muOf mono) c + _ + loss = _
+  rw [hm']
+  simp only [plainWeight]
+  linarith
+
+/-! ### assembling `LabelledDecomposes` for the composition path -/
+
+theorem plainL_slice (a : Annotation) (iso : List Mod) (s e : Int) (hp : PlainL a iso) : PlainL (slice a s e) iso := by
+  obtain ⟨h1, h2, h3, h4, _, h6⟩ := slice_global a s e
+  exact ⟨by rw [h2, hp.static], by rw [h1, hp.isotope], by rw [h3, hp.labile], by rw [h4, hp.unknown],
+    slice_intervals_none a s e hp.intervals, by rw [h6, hp.adducts]⟩
+
+theorem residuesResolve_slice (K : Elem → Prop) (aa : Char → Comp) (a : Annotation) (s e : Int)
+    (hr : ResiduesResolve K aa a.seq) : ResiduesResolve K aa (slice a s e).seq := by
+  rw [slice_seq]
+  refine ⟨fun c hc => hr.residues c (mem_pySlice _ _ _ _ hc), ?_, ?_⟩
+  · have := hr.notB
+    simp only [List.contains_eq_mem, decide_eq_false_iff_not] at this ⊢
+    exact fun h => this (mem_pySlice _ _ _ _ h)
+  · have := hr.notZ
+    simp only [List.contains_eq_mem, decide_eq_false_iff_not] at this ⊢
+    exact fun h => this (mem_pySlice _ _ _ _ h)
+
+/-- the table facts about one fragment ion type `t` that the label path needs -/
+structure LabelTables (mono : Bool) (t : Chem.Key) (adj base : Comp) (txt : List Nat) : Prop where
+  notP : t ≠ ionP
+  notN : t ≠ ionN
+  hadj : lookup t neutralAdj = some adj
+  adjK : AK (knownOf mono) adj
+  text : lookup t Gen.baseAdducts = some txt
+  hbase : chargeAdductsCompStr txt = .ok base
+  baseK : AK (knownOf mono) base
+  adjN : lookup ionN neutralAdj = some []
+  kH : knownOf mono kH
+  kE : knownOf mono kE
+  kNn : knownOf mono kNn
+
+/-- the default charge carrier of a fragment ion type: `charge − 1` protons plus the base adducts -/
+def carrierOf (base : Comp) (ch : Int) : Comp := addAll (addAll [] (protonsComp (ch - 1))) base
+
+theorem AK_protons (mono : Bool) (hH : knownOf mono kH) (hE : knownOf mono kE) (n : Int) :
+    AK (knownOf mono) (protonsComp n) := by
+  intro q hq
+  simp only [protonsComp, List.mem_cons, List.not_mem_nil, or_false] at hq
+  rcases hq with rfl | rfl
+  · exact hH
+  · exact hE
+
+theorem defaultCarrier_fragment (mono : Bool) (t : Chem.Key) (adj base : Comp) (txt : List Nat)
+    (ht : LabelTables mono t adj base txt) (ch : Int) :
+    defaultCarrier ch t = .ok (carrierOf base ch) ∧ AK (knownOf mono) (carrierOf base ch) := by
+  constructor
+  · unfold defaultCarrier
+    have : (t = ionP || t = ionN) = false := by simp [ht.notP, ht.notN]
+    simp only [this, Bool.false_eq_true, if_false, ht.text, bind, Except.bind, ht.hbase]
+    rfl
+  · exact AK_addAll _ _ _ (AK_addAll _ _ _ (AK_nil _) (AK_protons mono ht.kH ht.kE _)) ht.baseK
+
+/-- the offset of ion type `t` at charge `ch` under the labels: labelled neutral adjustment + labelled carriers -/
+def labelOffset (mono : Bool) (map : List (Chem.Key × Chem.Key)) (adj base : Comp) (ch : Int) : Rat :=
+  chemMassL (labelMu map (muOf mono)) adj + chemMassL (labelMu map (muOf mono)) (carrierOf base ch)
+
+/-- **the composition path of `mass` satisfies `LabelledDecomposes`** on a plain labelled working copy -/
+theorem labelledDecomposes_compMass (menv : Pept.Env) (mono : Bool) (dl : Mod → Option Rat) (cp : Mod → Comp)
+    (aa : Char → Comp) (a : Annotation) (i0 : Mod) (is : List Mod) (map : List (Chem.Key × Chem.Key))
+    (hpl : PlainL a (i0 :: is)) (hparse : parseIsotopeMods (i0 :: is) = .ok map)
+    (hmapK : ∀ p ∈ map, knownOf mono p.2)
+    (hres : ResiduesResolve (knownOf mono) aa a.seq) (hmods : ModsResolve menv (knownOf mono) dl cp)
+    (t : Chem.Key) (adj base : Comp) (txt : List Nat) (ht : LabelTables mono t adj base txt) :
+    LabelledDecomposes CompCalc.compMass menv mono a
+      (fun x => chemMassL (labelMu map (muOf mono)) (aa x)) (modWeight (muOf mono) dl cp) t
+      (labelOffset mono map adj base) (muOf mono kNn) := by
+  have hcc : (t = ionP || t = ionN || (lookup t Gen.baseAdducts).isSome) = true := by simp [ht.text]
+  refine ⟨?_, ?_, ?_⟩
+  · intro s e c iso loss
+    obtain ⟨hc1, hc2⟩ := defaultCarrier_fragment mono t adj base txt ht c
+    exact massOf_labelled menv mono dl cp aa (slice a s e) i0 is map (plainL_slice a _ s e hpl) hparse hmapK
+      (residuesResolve_slice _ aa a s e hres) hmods t c iso loss adj (carrierOf base c) ht.hadj ht.adjK hc1 hc2 hcc ht.kNn
+  · intro s e
+    have hcarN : defaultCarrier 0 ionN = .ok (addAll [] (protonsComp 0)) := by
+      unfold defaultCarrier
+      have : (ionN = ionP || ionN = ionN) = true := by decide
+      simp only [this, if_true]
+      rfl
+    have hccN : (ionN = ionP || ionN = ionN || (lookup ionN Gen.baseAdducts).isSome) = true := by
+      have : (ionN = ionP || ionN = ionN) = true := by decide
+      simp [this]
+    have := massOf_labelled menv mono dl cp aa (slice a s e) i0 is map (plainL_slice a _ s e hpl) hparse hmapK
+      (residuesResolve_slice _ aa a s e hres) hmods ionN 0 0 0 [] (addAll [] (protonsComp 0)) ht.adjN (AK_nil _) hcarN
+      (AK_addAll _ _ _ (AK_nil _) (AK_protons mono ht.kH ht.kE 0)) hccN ht.kNn
+    rw [this]
+    congr 1
+    simp only [chemMassL_addAll, chemMassL_nil, protonsComp, chemMassL_cons]
+    push_cast
+    ring
+  · intro c
+    obtain ⟨hc1, hc2⟩ := defaultCarrier_fragment mono t adj base txt ht c
+    have hb : PlainL (blankOf a) (i0 :: is) := ⟨rfl, hpl.isotope, rfl, rfl, rfl, rfl⟩
+    have hr : ResiduesResolve (knownOf mono) aa (blankOf a).seq :=
+      ⟨fun c hc => (by cases hc), rfl, rfl⟩
+    have := massOf_labelled menv mono dl cp aa (blankOf a) i0 is map hb hparse hmapK hr hmods t c 0 0 adj
+      (carrierOf base c) ht.hadj ht.adjK hc1 hc2 hcc ht.kNn
+    rw [this]
+    congr 1
+    simp only [plainWeight, blankOf, optSum, intSum, labelOffset, List.map_nil, List.sum_nil]
+    push_cast
+    ring
+
+
+/-! ### the table facts as a Boolean check (for `decide +kernel` on the generated tables) -/
+
+def labelTablesB (mono : Bool) (t : Chem.Key) (adj base : Comp) (txt : List Nat) : Bool :=
+  decide (t ≠ ionP) && decide (t ≠ ionN) && decide (lookup t neutralAdj = some adj) &&
+  adj.all (fun q => (elemMass mono q.1).isSome) && decide (lookup t Gen.baseAdducts = some txt) &&
+  (match chargeAdductsCompStr txt with
+    | .ok b => decide (b = base)
+    | .error _ => false) &&
+  base.all (fun q => (elemMass mono q.1).isSome) && decide (lookup ionN neutralAdj = some []) &&
+  (elemMass mono kH).isSome && (elemMass mono kE).isSome && (elemMass mono kNn).isSome
+
+theorem labelTables_of_B (mono : Bool) (t : Chem.Key) (adj base : Comp) (txt : List Nat)
+    (h : labelTablesB mono t adj base txt = true) : LabelTables mono t adj base txt := by
+  unfold labelTablesB at h
+  simp only [Bool.and_eq_true, decide_eq_true_eq, List.all_eq_true] at h
+  obtain ⟨⟨⟨⟨⟨⟨⟨⟨⟨⟨h1, h2⟩, h3⟩, h4⟩, h5⟩, h6⟩, h7⟩, h8⟩, h9⟩, h10⟩, h11⟩ := h
+  have hb : chargeAdductsCompStr txt = .ok base := by
+    cases hx : chargeAdductsCompStr txt with
+    | ok b => rw [hx] at h6; simp only [decide_eq_true_eq] at h6; rw [h6]
+    | error e => rw [hx] at h6; cases h6
+  exact ⟨h1, h2, h3, fun q hq => h4 q hq, h5, hb, fun q hq => h7 q hq, h8, h9, h10, h11⟩
+
+/-- the table entries of an ion type, read off the generated tables -/
+def adjOfKey (t : Chem.Key) : Comp := (lookup t neutralAdj).getD []
+def txtOfKey (t : Chem.Key) : List Nat := (lookup t Gen.baseAdducts).getD []
+def baseOfKey (t : Chem.Key) : Comp :=
+  match chargeAdductsCompStr (txtOfKey t) with
+  | .ok b => b
+  | .error _ => []
+
 end Fragment
